@@ -116,6 +116,11 @@ def main():
     if a.replay:
         with open(a.replay) as f:
             replay = json.load(f)
+        # a recorded case is replayed under the tier and seed it was found with (they select the alphabets)
+        if replay.get("tier") in ("quick", "thorough"):
+            tier = replay["tier"]
+        if isinstance(replay.get("seed"), int):
+            seed = replay["seed"]
     ctx = core.Ctx(pid, tier, seed, replay=replay)
     core.KNOWN[:] = findings.predicates(pid, mod)
     try:
@@ -139,6 +144,43 @@ def main():
                                                                  v.message[:1500]))
                 print("VIOLATION property=%s replay=%s" % (pid, a.replay))
                 return 1
+            pre = replay.get("prefix_units")
+            units = getattr(part, "units", None)
+            if pre and units is not None and replay.get("tier") == tier and replay.get("seed") == seed:
+                # the case alone holds: re-execute, in one fresh process, the cases its worker had executed before it
+                from mc.util import in_child
+                units = list(units)
+
+                def rerun():
+                    r2 = core.Rec(part.name)
+                    r2.tmp = ctx.tmpdir
+                    want = replay["case"]
+                    for i in pre:
+                        if i >= len(units):
+                            return ("mismatch", "unit index %d out of range" % i)
+                        cases = list(part.expand(units[i])) if part.expand else [units[i]]
+                        for c in cases:
+                            try:
+                                part.one(c, r2)
+                            except Exception:
+                                import traceback
+                                r2.fail(c, "raised: " + traceback.format_exc()[-800:])
+                    hits = [v for v in r2.violations if core.case_to_text(v.case) == want]
+                    if hits:
+                        return ("hit", hits[0].message)
+                    if r2.violations:
+                        v0 = r2.violations[0]
+                        return ("otherhit", "%d other case(s) of the recorded prefix fail, e.g. %s: %s"
+                                % (r2.nviol, core.case_to_text(v0.case)[:300], v0.message[:600]))
+                    return ("nohit", 0)
+                st, out = in_child(rerun, timeout=3600)
+                if os.environ.get("VERIF_DEBUG_REPLAY"):
+                    print("prefix replay:", st, out)
+                if st == "ok" and out[0] in ("hit", "otherhit"):
+                    print("REPLAY-FAIL part=%s case=%s\n  (fails after the %d earlier cases of its worker process: "
+                          "process-wide state)\n  %s" % (part.name, replay["case"][:600], len(pre) - 1, out[1][:1500]))
+                    print("VIOLATION property=%s replay=%s" % (pid, a.replay))
+                    return 1
             print("REPLAY-OK property=%s (the recorded case no longer violates)" % pid)
             return 0
 
@@ -183,7 +225,10 @@ def main():
             with open(path, "w") as f:
                 json.dump({"property": pid, "part": v.part, "case": core.case_to_text(v.case),
                            "message": v.message, "tier": tier, "seed": seed,
-                           "tree": build.repo_root()}, f, indent=1)
+                           "tree": build.repo_root(),
+                           # units the worker process had executed before (and including) this case; used by
+                           # --replay when the case alone does not fail (process-wide state left by earlier cases)
+                           "prefix_units": getattr(v, "prefix", None)}, f, indent=1)
                 f.write("\n")
             paths.append((v, path))
         nnew = len(new)
